@@ -403,4 +403,107 @@ theorem feedAll_closed {c : Conn} (h : c.closed = true) (cs : List Bytes) :
     feedAll c cs = (c, []) := by
   cases cs <;> simp [feedAll, h]
 
+-- ---------------------------------------------------------------------------------------------
+-- chunking
+
+/-- a connection whose loop would wait: fresh, or after any `data_received` that did not abort -/
+def Conn.quiet (c : Conn) : Prop := step c = .wait
+
+theorem feed_eq (c : Conn) (x : Bytes) : feed c x = ((drain (c.app x)).1, (drain (c.app x)).2.1) := rfl
+
+theorem drain_of_quiet {c : Conn} (h : c.quiet) : drain c = (c, [], false) := by
+  rw [drain_eq, h]
+
+theorem drain_facts' (c : Conn) :
+    (drain c).1.closed = (c.closed || (drain c).2.1.any Out.isClose) ∧
+    ((drain c).2.2 = true → (drain c).1.closed = true) ∧
+    ((drain c).2.2 = false → (drain c).1.quiet) ∧
+    (drain c).1.maxSize = c.maxSize :=
+  drain_facts (c.spool.length + 1) c (by omega)
+
+theorem drain_app' (c : Conn) (t : Bytes) :
+    drain (c.app t) =
+      if (drain c).2.2 then ((drain c).1.app t, (drain c).2.1, true)
+      else ((drain ((drain c).1.app t)).1, (drain c).2.1 ++ (drain ((drain c).1.app t)).2.1,
+            (drain ((drain c).1.app t)).2.2) :=
+  drain_app t (c.spool.length + 1) c (by omega)
+
+/-- feeding `x` and then `t` in one piece, in terms of feeding `x` first -/
+theorem feed_append (c : Conn) (x t : Bytes) :
+    feed c (x ++ t) =
+      if (drain (c.app x)).2.2 then ((feed c x).1.app t, (feed c x).2)
+      else ((feed (feed c x).1 t).1, (feed c x).2 ++ (feed (feed c x).1 t).2) := by
+  simp only [feed_eq, ← Conn.app_app, drain_app' (c.app x) t]
+  split <;> rfl
+
+/-- **Chunking independence, outputs.**  From a quiet open connection, the outputs up to and
+including the first close are the same for every way of cutting the stream. -/
+theorem chunking_uptoClose : ∀ (cs : List Bytes) (c : Conn), c.quiet → c.closed = false →
+    uptoClose (feedAll c cs).2 = uptoClose (feed c cs.flatten).2 := by
+  intro cs
+  induction cs with
+  | nil =>
+    intro c hq _
+    simp [feedAll, feed_eq, Conn.app_nil, drain_of_quiet hq]
+  | cons x xs ih =>
+    intro c hq hopen
+    obtain ⟨f1, f2, f3, _⟩ := drain_facts' (c.app x)
+    simp only [feedAll, hopen, Bool.false_eq_true, ↓reduceIte, List.flatten_cons, feed_append]
+    cases hstop : (drain (c.app x)).2.2 with
+    | true =>
+      have hcl : (feed c x).1.closed = true := f2 hstop
+      simp [feedAll_closed hcl]
+    | false =>
+      simp only [Bool.false_eq_true, ↓reduceIte]
+      cases hcl : (feed c x).1.closed with
+      | true =>
+        have hany : (feed c x).2.any Out.isClose = true := by
+          have := f1
+          simp only [Conn.app_closed, hopen, Bool.false_or] at this
+          exact this.symm.trans hcl
+        simp [feedAll_closed hcl, uptoClose_append, hany]
+      | false =>
+        have hany : (feed c x).2.any Out.isClose = false := by
+          have := f1
+          simp only [Conn.app_closed, hopen, Bool.false_or] at this
+          exact this.symm.trans hcl
+        have := ih (feed c x).1 (f3 hstop) hcl
+        simp [uptoClose_append, hany, this]
+
+/-- **Chunking independence, everything.**  If the stream fed in one piece leaves the connection
+open, every chunking gives exactly the same outputs and the same final state. -/
+theorem chunking_open : ∀ (cs : List Bytes) (c : Conn), c.quiet →
+    (feed c cs.flatten).1.closed = false → feedAll c cs = feed c cs.flatten := by
+  intro cs
+  induction cs with
+  | nil =>
+    intro c hq _
+    simp [feedAll, feed_eq, Conn.app_nil, drain_of_quiet hq]
+  | cons x xs ih =>
+    intro c hq hopen
+    obtain ⟨f1, f2, f3, _⟩ := drain_facts' (c.app x)
+    simp only [List.flatten_cons, feed_append] at hopen ⊢
+    cases hstop : (drain (c.app x)).2.2 with
+    | true =>
+      have hcl : (feed c x).1.closed = true := f2 hstop
+      simp [hstop, hcl] at hopen
+    | false =>
+      simp only [hstop, Bool.false_eq_true, ↓reduceIte] at hopen ⊢
+      obtain ⟨g1, _, _, _⟩ := drain_facts' ((feed c x).1.app xs.flatten)
+      have hcl : (feed c x).1.closed = false := by
+        have : (feed (feed c x).1 xs.flatten).1.closed
+            = ((feed c x).1.closed || (feed (feed c x).1 xs.flatten).2.any Out.isClose) := g1
+        rw [hopen] at this
+        cases h : (feed c x).1.closed with
+        | false => rfl
+        | true => simp [h] at this
+      have hc0 : c.closed = false := by
+        have : (feed c x).1.closed = (c.closed || (feed c x).2.any Out.isClose) := f1
+        rw [hcl] at this
+        cases h : c.closed with
+        | false => rfl
+        | true => simp [h] at this
+      have := ih (feed c x).1 (f3 hstop) hopen
+      simp [feedAll, hc0, this]
+
 end Aiocoap.Tcp
